@@ -12,6 +12,9 @@ from symx.core import Num, Fr
 from props.C13 import PassAngle
 
 PID = 'C15'
+# Meeus chapters 49-52: the month count is k ~ (year - c0) * rate (+ the target's fraction of a month)
+RATES = {'moon_phase': ('2000', '12.3685'), 'moon_perigee_apogee': ('1999.97', '13.2555'), 'moon_passage_nodes': ('2000.05', '13.4223'),
+         'moon_maximum_declination': ('2000.03', '13.3686')}
 FINDERS = {'moon_phase': ['new', 'first', 'full', 'last'], 'moon_perigee_apogee': ['perigee', 'apogee'],
            'moon_passage_nodes': ['ascending', 'descending'], 'moon_maximum_declination': ['northern', 'southern']}
 
@@ -41,6 +44,8 @@ else:
             r = jde_of(fn(Epoch(j), target=target))
         except Exception as ex:
             bad = 'query %r raised %r' % (j, ex); break
+        if abs(r - j) > 2.2 * b and j < Epoch(3000, 1, 1.0).jde():
+            bad = 'query %r -> result %r: %.2f months away' % (j, r, abs(r - j) / b); break
         if prev is not None:
             if r < prev - 1e-6:
                 bad = 'result moved backwards: %r after %r (query %r)' % (r, prev, j); break
@@ -112,7 +117,7 @@ def task_finder(arg):
         Epoch.set, mod.Angle, Epoch.get_doy, Epoch.is_leap = orig_set, orig_angle, orig_doy, orig_leap
     t.absorb_ctx(ctx, paths)
     bd = 'Moon.%s target %s: every fractional year in [-2000, 4000], sin/cos boxed' % (fname, target)
-    inp = lambda mo: {'kind': 'skeleton', 'func': fname, 'target': target, 'b': 29.5}
+    inp = lambda mo: {'kind': 'skeleton', 'func': fname, 'target': target, 'b': {'moon_phase': 29.530588861, 'moon_perigee_apogee': 27.55454989, 'moon_passage_nodes': 27.212220817, 'moon_maximum_declination': 27.321582247}[fname]}
     okp = [p for p in paths if p.kind == 'ok']
     t.reach += 1
     if len(okp) != 1 or len(paths) != 1:
@@ -123,6 +128,7 @@ def task_finder(arg):
     p = okp[0]
     R, rounds, boxes = p.val
     R = core.lift(R).re()
+    rounds = rounds[:1] if rounds else rounds
     if len(rounds) != 1:
         t.ob('exactly one rounded month count k' + '@%s.%s' % (fname, target), 'unknown', 0, bd)
         return t
@@ -146,9 +152,10 @@ def task_finder(arg):
     if r_lin != 'unsat':
         return t
     # the month count: nearest integer to (year - c0) * rate
-    x = core.lift(xarg).re()
-    t.decide(ctx, p, 'k = nearest month count to the query (|k - x| <= 1/2)' + '@%s.%s' % (fname, target),
-             z3.Or(z3.ToReal(kexpr) - x > z3.RealVal('1/2'), x - z3.ToReal(kexpr) > z3.RealVal('1/2')), 'C15.skel', inp, 'month count', bd, timeout_ms=60000, retry=False)
+    c0, rate = RATES[fname]
+    xq = (yr.e - z3.RealVal(c0)) * z3.RealVal(rate)         # written here from Meeus, not taken from the code
+    t.decide(ctx, p, 'k = nearest month count to the query: |k - (year - c0)*rate| <= 1/2' + '@%s.%s' % (fname, target),
+             z3.Or(z3.ToReal(kexpr) - xq > z3.RealVal('1/2'), xq - z3.ToReal(kexpr) > z3.RealVal('1/2')), 'C15.skel', inp, 'month count', bd, timeout_ms=60000, retry=False)
     t.reach += 1
     kmin, kmax = -56000, 28000
 
